@@ -301,6 +301,8 @@ def trace_digest(recs):
 def write_evidence(pid, tier, seed, coverage, wall, violations=0, assumptions=(), level="model_checking"):
     # extension modules (ids X..: behaviour beyond the listed properties) keep their evidence apart
     evid = EVID if not pid.startswith("X") else os.path.join(VERIF, "evidence_ext")
+    if os.path.realpath(os.environ.get("VERIF_REPO", "/repo")) != "/repo":
+        evid = "/tmp/verif-evidence-alt"      # runs against a scratch (e.g. seeded) tree never touch the committed evidence
     os.makedirs(evid, exist_ok=True)
     ev = {"property_id": pid, "tier": tier, "seed": int(seed), "level": level, "coverage": coverage,
           "assumptions": list(assumptions), "wall_s": round(wall, 2), "violations": int(violations)}
